@@ -68,7 +68,7 @@ def make_cfg(seed, i):
         cfg["args"]["rhoend"] = float(rb * 10.0 ** rng.uniform(-2.5, -0.3))    # many restarts
     if cfg.get("reg"):
         up["logging.save_poisedness"] = False
-    if i % 12 == 5:
+    if i % 6 == 5:
         # long growing phase: inverse problem (m < n) started from one direction, with the safety-step variants of the growing code
         n = int(rng.integers(5, 11))
         m = int(rng.integers(2, n))
@@ -78,9 +78,29 @@ def make_cfg(seed, i):
                    user_params={"logging.save_diagnostic_info": True, "logging.save_poisedness": False,
                                 "growing.ndirs_initial": int(rng.integers(1, 3))})
         up = cfg["user_params"]
-        u = r()
-        if u < 0.5:
+        if r() < 0.5:
+            # converge while the set is still growing, after long successful steps (measured with a probe on the branch: the
+            # 'fix geometry' part of the growing safety step needs points further than 10*rho from the incumbent, which only
+            # happens when delta has grown far beyond rho on the way): consistent linear system, start 10-100 rhobeg away from the
+            # solution set, many dimensions, one initial direction
+            n = int(rng.integers(7, 13))
+            m = int(rng.integers(2, n - 2))
+            cfg["prob"] = dict(kind="linear", n=n, m=m, pseed=int(rng.integers(0, 2 ** 31)), cond=10.0, scale=1.0)
+            A, b = gen.linear_data(n, m, cfg["prob"]["pseed"], 10.0, 1.0)
+            xs = np.linalg.lstsq(A, b, rcond=None)[0]
+            rhobeg = float(10.0 ** rng.uniform(-1.5, 0))
+            dvec = A.T @ rng.normal(size=m)
+            cfg["x0"] = (xs + dvec / np.linalg.norm(dvec) * rhobeg * float(10.0 ** rng.uniform(1, 2))).tolist()
+            cfg["args"].update(rhobeg=rhobeg, maxfun=int(gen.pick(rng, [40, 80])))
+            up["growing.ndirs_initial"] = 1
             up["growing.safety.reduce_delta"] = True
+        u = r() if "growing.safety.reduce_delta" not in up else 0.0
+        if u < 0.6:
+            up["growing.safety.reduce_delta"] = True
+            if r() < 0.5:
+                # make delta small against the distances in the set (the safety branch then shrinks delta further)
+                up["tr_radius.gamma_dec"] = float(rng.uniform(0.1, 0.5))
+                up["growing.gamma_dec"] = float(rng.uniform(0.1, 0.9))
         elif u < 0.75:
             up["growing.safety.full_geom_step"] = True
         if r() < 0.4:
